@@ -71,6 +71,7 @@ package payload
 //@ func (*part).GetSlice inline
 
 //@ func (*Bin).EncodeHeader
+//@   on return assert header-is-encoded-from-the-current-parts: called(encoding/json.Marshal) && ncalls(encoding/json.Marshal) == 1 && byteMeta == lastret(encoding/json.Marshal, 0) && err == lastret(encoding/json.Marshal, 1)
 //@   before call encoding/json.Marshal assert one-descriptor-per-part-in-order: len(meta) == len(bin.parts) && forall(k, 0, len(bin.parts), meta[k] != nil && meta[k].Beg == bin.parts[k].beg && meta[k].End == bin.parts[k].end && meta[k].Name == bin.parts[k].Binnable.GetName() && meta[k].Renamed == bin.parts[k].renamed && meta[k].Prev == bin.parts[k].Binnable.GetPrev() && meta[k].Hash == bin.parts[k].Binnable.GetHash() && meta[k].Size == bin.parts[k].Binnable.GetSize() && meta[k].Time == bin.parts[k].Binnable.GetTime() && meta[k].send == bin.parts[k].Binnable.GetSendSize())
 //@   loop 0 invariant 0 <= i && i <= len(bin.parts) && len(meta) == len(bin.parts) && !samearray(meta, bin.parts)
 //@   loop 0 invariant descriptors-so-far: forall(k, 0, i, meta[k] != nil && meta[k].Beg == bin.parts[k].beg && meta[k].End == bin.parts[k].end && meta[k].Name == bin.parts[k].Binnable.GetName() && meta[k].Renamed == bin.parts[k].renamed && meta[k].Prev == bin.parts[k].Binnable.GetPrev() && meta[k].Hash == bin.parts[k].Binnable.GetHash() && meta[k].Size == bin.parts[k].Binnable.GetSize() && meta[k].Time == bin.parts[k].Binnable.GetTime() && meta[k].send == bin.parts[k].Binnable.GetSendSize())
@@ -123,6 +124,7 @@ package payload
 //@ spec local(p string) bool
 
 //@ func NewDecoder
+//@   loop 0 backedge assert name-and-predecessor-of-every-part-are-converted: ncalls(strings.Split) == 2 && ncalls(path/filepath.Join) == 2
 //@   before call path/filepath.IsLocal assert checks-the-decoded-names: arg0 == part.Name || arg0 == part.Renamed
 //@   on return assert names-are-local: r0 != nil ==> forall(k, 0, len(binReader.meta), local(binReader.meta[k].Name) && (binReader.meta[k].Renamed == "" || local(binReader.meta[k].Renamed))) && as(r0, *Decoder) == binReader
 //@   on return assert names-are-inside: r0 != nil ==> forall(k, 0, len(binReader.meta), pathclean(binReader.meta[k].Name) != "." && (binReader.meta[k].Renamed == "" || pathclean(binReader.meta[k].Renamed) != "."))
